@@ -98,12 +98,10 @@ func iterateShared(fn subscription.IterateFn, options subscription.IterationOpti
 	}
 	// 查询指定clientID下的所有topic
 	if options.ClientID != "" {
-		for _, v := range index[options.ClientID] {
-			for _, c := range v.shared {
-				if sub, ok := c[options.ClientID]; ok {
-					if !fn(options.ClientID, sub) {
-						return false
-					}
+		for k, v := range index[options.ClientID] {
+			if sub, ok := v.shared[sharedIndexShareName(k)][options.ClientID]; ok {
+				if !fn(options.ClientID, sub) {
+					return false
 				}
 			}
 		}
@@ -111,6 +109,16 @@ func iterateShared(fn subscription.IterateFn, options subscription.IterationOpti
 	}
 	// 遍历
 	return trie.preOrderTraverse(fn)
+}
+
+// sharedIndexKey returns the key of a shared subscription in sharedIndex: shareName/topicFilter.
+func sharedIndexKey(shareName, topicFilter string) string {
+	return shareName + "/" + topicFilter
+}
+
+// sharedIndexShareName returns the share name part of a sharedIndex key.
+func sharedIndexShareName(key string) string {
+	return strings.SplitN(key, "/", 2)[0]
 }
 
 func iterateNonShared(fn subscription.IterateFn, options subscription.IterationOptions, index map[string]map[string]*topicNode, trie *topicTrie) bool {
@@ -275,6 +283,7 @@ func (db *TrieDB) SubscribeLocked(clientID string, subscriptions ...*gmqtt.Subsc
 		if sub.ShareName != "" {
 			node = db.sharedTrie.subscribe(clientID, sub)
 			index = db.sharedIndex
+			topicName = sharedIndexKey(sub.ShareName, topicName)
 		} else if isSystemTopic(topicName) {
 			node = db.systemTrie.subscribe(clientID, sub)
 			index = db.systemIndex
@@ -315,9 +324,11 @@ func (db *TrieDB) UnsubscribeLocked(clientID string, topics ...string) {
 	for _, topic := range topics {
 		var shareName string
 		shareName, topic := subscription.SplitTopic(topic)
+		key := topic
 		if shareName != "" {
 			topicTrie = db.sharedTrie
 			index = db.sharedIndex
+			key = sharedIndexKey(shareName, topic)
 		} else if isSystemTopic(topic) {
 			index = db.systemIndex
 			topicTrie = db.systemTrie
@@ -326,11 +337,11 @@ func (db *TrieDB) UnsubscribeLocked(clientID string, topics ...string) {
 			topicTrie = db.userTrie
 		}
 		if _, ok := index[clientID]; ok {
-			if _, ok := index[clientID][topic]; ok {
+			if _, ok := index[clientID][key]; ok {
 				db.stats.SubscriptionsCurrent--
 				db.clientStats[clientID].SubscriptionsCurrent--
 			}
-			delete(index[clientID], topic)
+			delete(index[clientID], key)
 		}
 		topicTrie.unsubscribe(clientID, topic, shareName)
 	}
